@@ -484,7 +484,7 @@ pub fn run(args: &Args, rep: &mut Report) {
                 continue;
             }
             let o = FOpts::default_for(t);
-            judge_real(rep, &o, t < 100_000, 4096);
+            judge_real(rep, &o, t < 1_500_000, 4096);
         }
         let count = if thorough { 12_000 } else { 1_200 } / nshards;
         for _ in 0..count {
@@ -494,7 +494,8 @@ pub fn run(args: &Args, rep: &mut Report) {
             if bytes > capb {
                 o.total = (capb / u64::from(o.bps)) as u32 - rng.below(5000) as u32;
             }
-            let small = u64::from(o.total) * u64::from(o.bps) < (48 << 20);
+            // garbage-filled storage (FATs and directories must be zeroed explicitly); cheap as long as the FAT is small
+            let small = u64::from(o.total) * u64::from(o.bps) < (1 << 30);
             let extra = if o.explicit_total { *rng.pick(&[0u64, 4096, 513]) } else { rng.below(u64::from(o.bps)) };
             judge_real(rep, &o, small && rng.chance(1, 2), extra);
             if rep.samples.len() < 3 {
